@@ -26,12 +26,23 @@ CATS = {
 
 def gen_case(rng, pi_method=None, size="small", **kw):
     pi = pi_method or rng.choice(["nonparametric", "gaussian", "bootstrap"])
-    district = rng.random() < 0.25
+    district = kw.pop("district") if "district" in kw else rng.random() < 0.25
+    aggregates = kw.pop("aggregates", None)
     if pi == "bootstrap" and "roles" not in kw:
         # a feed row with a NaN count poisons every bootstrap aggregate (known finding KF-4): kept out of the main stream
         kw["roles"] = [r for r in E.ROLES if r != "nan-estimand"]
     kw.setdefault("min_reporting", 12 if pi == "bootstrap" else 8)
+    if "roles" not in kw and rng.random() < 0.12:
+        # nothing left to predict: every baseline unit has reported (or is excluded), plus unexpected units
+        kw["roles"] = ["reporting"] * 8 + ["blocklisted", "zero-baseline", "strange-low", "strange-high"]
+        kw["all_reported"] = True
+    all_reported = kw.pop("all_reported", False)
     e = E.gen_election(rng, size=size, district=district, **kw)
+    if all_reported:
+        # excluded units may sit below the threshold; reporting units must not
+        for i in e.cur.index:
+            if e.roles.get(e.cur.loc[i, "geographic_unit_fips"]) == "reporting":
+                e.cur.loc[i, "percent_expected_vote"] = max(float(e.cur.loc[i, "percent_expected_vote"]), e.threshold)
     if pi == "bootstrap":
         estimands = ["margin"]
         alphas = rng.sample([0.5, 0.75, 0.9], 2)
@@ -48,7 +59,7 @@ def gen_case(rng, pi_method=None, size="small", **kw):
         params = dict(params, turnout_factor_lower=tf_lo, turnout_factor_upper=tf_hi)
     return {
         "election": e, "pi_method": pi, "estimands": estimands, "alphas": alphas, "params": params,
-        "features": features, "policy": rng.choice(["drop", "zero"]), "aggregates": E.pick_aggregates(rng, e),
+        "features": features, "policy": rng.choice(["drop", "zero"]), "aggregates": aggregates or E.pick_aggregates(rng, e),
         "tf_lo": tf_lo, "tf_hi": tf_hi,
     }
 
@@ -359,8 +370,18 @@ def check_levels(run, case, tables, outs, meta, props):
             if "C02" in props or "C01" in props:
                 run.diff("aggregate table keys / row order: model vs implementation", input=L, impl=ikeys[:8],
                          model=mkeys[:8], where=tag, replay_case=case_json(case))
-            continue
+            extra, missing = [k for k in ikeys if k not in mp], [k for k in mkeys if k not in set(ikeys)]
+            if extra or missing:
+                # the groups themselves differ: votes were moved to a group no unit is attributable to, or a group is lost
+                for pr, sig, pred_ in (("C01", "C01:agg-groups", "group_exists_iff"), ("C02", "C02:agg-groups", "agg_row_exists_iff")):
+                    if pr in props:
+                        run.violation("the groups of an aggregate table are not exactly the groups its units are attributable to",
+                                      input=L, where=tag, impl={"groups without attributable units": [list(k) for k in extra[:5]],
+                                                                "groups missing": [list(k) for k in missing[:5]]},
+                                      predicate=pred_, signature=sig, replay_case=case_json(case))
         for (key, pred, res, rep, lo, hi) in rows:
+            if key not in mp:
+                continue
             mr = mp[key]
             m_pred, m_res, m_rep = C.unrat(mr[1]), C.unrat(mr[2]), C.unrat(mr[3])
             if count_est:
@@ -394,8 +415,9 @@ def check_levels(run, case, tables, outs, meta, props):
         run.traces += 1
 
 
-def check_unit_rows(run, case, tables, props):
-    """C03 at unit level + C06-style predicates for bootstrap"""
+def check_unit_rows(run, case, tables, props, model_view=None):
+    """C03 at unit level + C06-style predicates for bootstrap. `model_view`: the split according to the rules (Lean model); a unit
+    the rules put among the reporting / unexpected / non-modelled units must be final whatever the implementation called it"""
     if "C03" not in props:
         return
     L = light(case)
@@ -408,6 +430,9 @@ def check_unit_rows(run, case, tables, props):
             vals = [r.get(f"pred_{est}")] + [r.get(f"{b}_{a}_{est}") for a in case["alphas"] for b in ("lower", "upper")]
             final = not (r["unit_category"] == "expected" and int(r["reporting"]) == 0)
             u = r["geographic_unit_fips"]
+            if model_view is not None and u in model_view:
+                mc, mrep, _ = model_view[u]
+                final = final or not (mc == "expected" and mrep == 0)
             if final:
                 if any(v != res for v in vals):
                     run.violation("a reporting / unexpected / non-modelled unit does not carry its counted votes as "
@@ -547,7 +572,7 @@ def stage2(run, rec, outs, props):
         else:
             mout = o
     check_split(run, case, tables, mout, rec["ids"], props)
-    check_unit_rows(run, case, tables, props)
+    check_unit_rows(run, case, tables, props, model_view=(model_unit_view(mout, rec["ids"]) if mout is not None else None))
     if case["pi_method"] == "bootstrap":
         boot_margin_checks(run, case, tables, props)
     elif rec["meta"] is not None:
